@@ -319,5 +319,84 @@ theorem inv_run {k : N → κ} {L0 : κ → Prop} (cs : List (Call N)) :
     intro L cc h hd
     exact ih (inv_step h c hd.1) hd.2
 
+/-! ### provenance: every node held by the collector was handed to it by a call, and sits under its own key -/
+
+structure Prov (k : N → κ) (P : N → Prop) (cc : Collector κ N) : Prop where
+  changes : ∀ e ∈ cc.changes, k e.2.new = e.1 ∧ P e.2.new ∧ ∀ o, e.2.old = some o → P o
+  deletes : ∀ e ∈ cc.deletes, k e.2 = e.1 ∧ P e.2
+
+def CallNodes (P : N → Prop) : Call N → Prop
+  | .add o n => P n ∧ ∀ o', o = some o' → P o'
+  | .del o => P o
+
+theorem prov_init (k : N → κ) (P : N → Prop) (r : κ) : Prov k P ({ startRoot := r } : Collector κ N) where
+  changes := by intro e h; cases h
+  deletes := by intro e h; cases h
+
+theorem prov_step {k : N → κ} {P : N → Prop} {cc : Collector κ N} (h : Prov k P cc) (c : Call N)
+    (hc : CallNodes P c) : Prov k P (step k cc c) := by
+  cases c with
+  | del o =>
+    simp only [step, deleteChange]
+    cases hg : Map.get cc.changes (k o) with
+    | some c0 =>
+      exact ⟨fun e he => h.changes e (Map.mem_del he), h.deletes⟩
+    | none =>
+      refine ⟨h.changes, fun e he => ?_⟩
+      rcases Map.mem_put he with rfl | he
+      · exact ⟨rfl, hc⟩
+      · exact h.deletes e he
+  | add o n =>
+    have hdel : ∀ e ∈ Map.del cc.deletes (k n), k e.2 = e.1 ∧ P e.2 := fun e he => h.deletes e (Map.mem_del he)
+    cases o with
+    | none =>
+      simp only [step, addChange]
+      refine ⟨fun e he => ?_, hdel⟩
+      rcases Map.mem_put he with rfl | he
+      · exact ⟨rfl, hc.1, by intro o ho; cases ho⟩
+      · exact h.changes e he
+    | some o =>
+      simp only [step, addChange]
+      cases hg : Map.get cc.changes (k o) with
+      | none =>
+        simp only
+        refine ⟨fun e he => ?_, fun e he => ?_⟩
+        · rcases Map.mem_put he with rfl | he
+          · exact ⟨rfl, hc.1, by intro o' ho'; cases ho'; exact hc.2 o rfl⟩
+          · exact h.changes e he
+        · rcases Map.mem_put he with rfl | he
+          · exact ⟨rfl, hc.2 o rfl⟩
+          · exact hdel e he
+      | some prev =>
+        simp only
+        have hprev := h.changes (k o, prev) (Map.mem_of_get hg)
+        have herased : ∀ e ∈ Map.del cc.changes (k o), k e.2.new = e.1 ∧ P e.2.new ∧ ∀ o, e.2.old = some o → P o :=
+          fun e he => h.changes e (Map.mem_del he)
+        cases hpo : prev.old with
+        | none =>
+          simp only
+          refine ⟨fun e he => ?_, hdel⟩
+          rcases Map.mem_put he with rfl | he
+          · exact ⟨rfl, hc.1, by intro o' ho'; cases ho'⟩
+          · exact herased e he
+        | some po =>
+          simp only
+          by_cases hback : k n = k po
+          · simp only [hback, if_true]
+            exact ⟨herased, by rw [← hback]; exact hdel⟩
+          · simp only [hback, if_false]
+            refine ⟨fun e he => ?_, hdel⟩
+            rcases Map.mem_put he with rfl | he
+            · exact ⟨rfl, hc.1, by intro o' ho'; cases ho'; exact hprev.2.2 po hpo⟩
+            · exact herased e he
+
+theorem prov_run {k : N → κ} {P : N → Prop} (cs : List (Call N)) :
+    ∀ {cc : Collector κ N}, Prov k P cc → (∀ c ∈ cs, CallNodes P c) → Prov k P (run k cc cs) := by
+  induction cs with
+  | nil => intro cc h _; exact h
+  | cons c cs ih =>
+    intro cc h hc
+    exact ih (prov_step h c (hc c (List.mem_cons_self ..))) (fun c' hc' => hc c' (List.mem_cons_of_mem _ hc'))
+
 end Collector
 end Verif.MptStore
